@@ -411,6 +411,36 @@ impl Sys {
         if flavour == 0 {
             return self.bring_up(connack_props);
         }
+        if flavour == 9 {
+            // The second connection of a Context whose FIRST connection was made with every CONNECT
+            // option set - among them the client's own Receive Maximum 2 and Maximum Packet Size 2000 -
+            // while the second is made with default options: nothing of the first CONNECT applies any more.
+            self.auto_exit = false;
+            self.bring_up_fl(vec![], 1);
+            if !self.dead {
+                self.apply(Ev::Eof);
+            }
+            if self.dead {
+                return;
+            }
+            self.events.push("Reconnect".into());
+            self.classes.push("Reconnect".into());
+            self.w.new_wire();
+            self.m.new_wire();
+            self.connect_with(
+                ConnectSpec::default(),
+                SPacket::Connack {
+                    session_present: false,
+                    reason: 0,
+                    props: connack_props,
+                },
+            );
+            if !self.dead {
+                self.start_run();
+            }
+            self.auto_exit = true;
+            return;
+        }
         if flavour == 8 {
             // The second connection of a Context whose first connection ended when the write of a
             // caller's request (a PINGREQ) failed; that caller is told the context is gone for it.
@@ -583,7 +613,9 @@ impl Sys {
             client_id: Some("flavoured".into()),
             keep_alive: Some(10),
             receive_maximum: Some(2),
-            maximum_packet_size: Some(16),
+            // (large enough for everything the scenarios' brokers send: a client may enforce its own
+            // limits on inbound traffic; small enough to sit below the bigger requests of C12 / C06)
+            maximum_packet_size: Some(2000),
             topic_alias_maximum: Some(3),
             request_response_information: Some(true),
             request_problem_information: Some(false),
